@@ -302,6 +302,7 @@ def rand_output(seed: int, big: bool = False, nonfinite: bool = False):
 NAMES = ["a", "b", "run 1", "ü", "", "data", "x/y", "a" * 40, "NaN", "q\"uote", "new\nline", "0", "r\udce9sultats",
          "caf\u00e9", "cafe\u0301", "\u212b", "\u00c5",        # canonically equivalent, DIFFERENT strings: different names
          "metadata", "actions", "net_arch", "pi", "sweep.lr0.1", "sweep.lr0.2", "2026-01-01T10:00:00.123", "2026-01-01T10:00:00.456", "a.b"]
+EQUIVALENT_NAMES = [("caf\u00e9", "cafe\u0301"), ("\u212b", "\u00c5"), ("\uac00", "\u1100\u1161"), ("cafe\u0301-run", "caf\u00e9-run")]
 SIBLING_NAMES = [("sweep.lr0.1", "sweep.lr0.2"), ("2026-01-01T10:00:00.123", "2026-01-01T10:00:00.456"), ("a.b", "a.c")]
 FULL_NAMES = ["a", "b", "run 1", "ü", "data", "NaN", "q\"uote", "0", "data.json",     # usable as a file / directory name by the plot savers
               "metadata", "net_arch", "sweep.lr0.1", "sweep.lr0.2", "2026-01-01T10:00:00.123", "2026-01-01T10:00:00.456", "a.b", "a.c"]
@@ -567,6 +568,9 @@ def run_c19(tier, budget: Budget, rnd) -> StreamResult:
                 # how the save reaches the file: directly, through another spelling of the same path (a symlinked directory),
                 # or from a forked child process — "any sequence of saves" is not restricted to one process and one spelling
                 via = rnd.choice(["direct", "direct", "direct", "alias", "fork"]) if h % 3 == 1 else "direct"
+                if h % 5 == 2 and step < 2:
+                    # two DIFFERENT strings that are canonically equivalent under Unicode normalisation: two names, two entries
+                    name = EQUIVALENT_NAMES[(h // 5) % len(EQUIVALENT_NAMES)][step]
                 sv = {"name": name, "seed": rnd.randint(0, 10 ** 9), "big": rnd.random() < 0.08, "via": via}
                 # a save that legitimately raises part-way through the dump (metadata json cannot write): every second history
                 # holds some, never as the very first save of histories 0 mod 4 (so that an earlier file exists)
